@@ -27,6 +27,7 @@ ASSUMPTIONS = [
 ]
 EXHAUSTIVE = {'quick': False, 'thorough': False}
 PYOPT_KINDS = (None,)
+CLOCALE_KINDS = (None,)
 KNOWN_KEYS = {'include-no-final-newline'}
 
 
